@@ -277,6 +277,7 @@ impl TermFrom {
             &&& tf.route_filters@.len() == count_rf(seg)                                       // OBL:C01.fetch.every_route_filter_is_kept
             &&& count_data(seg) == count_rf(seg)
         },
+        res is Ok ==> final(reader).remaining@.len() <= old(reader).remaining@.len(),
 //@loop 1
             invariant
                 is_prefix(old(reader).log@, reader.log@),
@@ -372,6 +373,86 @@ impl Maybe<Installed> {
 //@end
 }
 } // mod installed_stmt
+
+// ---------- C14: the remaining readers of the agent's get-config reply terminate and reach no panic ----------
+// (their value contracts are not stated here: only termination, `remaining` never grows, no reachable panic / overflow)
+pub struct TermFull { pub name: CowStr, pub from: TermFrom }
+pub struct RouteFilterFull { pub address: CowStr, pub prefix_length_range: CowStr }
+#[verifier::external_body]
+pub fn str_eq_cow(a: &&str, lit: &str) -> (r: bool) { unimplemented!() }
+// HashMap<Name, T> with the entry API
+pub struct HashMap<T> { pub m: Ghost<Map<Seq<u8>, T>> }
+pub enum Entry<'a, T> { Occupied(OccupiedEntry), Vacant(VacantEntry<'a, T>) }
+pub struct OccupiedEntry;
+pub struct VacantEntry<'a, T> { pub map: &'a mut HashMap<T>, pub key: Name }
+impl<T> HashMap<T> {
+    #[verifier::external_body] pub fn new() -> (r: HashMap<T>) ensures r.m@ == Map::<Seq<u8>, T>::empty() { unimplemented!() }
+    #[verifier::external_body] pub fn entry<'a>(&'a mut self, k: Name) -> (r: Entry<'a, T>) { unimplemented!() }
+}
+impl<'a, T> VacantEntry<'a, T> { #[verifier::external_body] pub fn insert(self, v: T) -> (r: u8) { unimplemented!() } }
+impl Clone for Name { #[verifier::external_body] fn clone(&self) -> (r: Self) ensures r.t@ == self.t@ { unimplemented!() } }
+//@item file=junos-agent/src/policies/mod.rs kind=struct name=Policies sub=/pub(crate) struct Policies<T>=>pub struct Policies<T>;map: HashMap<Name, T>=>pub map: HashMap<T>/
+// `Maybe<T>: ReadXml` - the per-statement readers (Maybe<Candidate> / Maybe<Installed>, verified above)
+pub trait MaybeRead: Sized {
+    fn read_maybe(reader: &mut NsReader, start: &BytesStart) -> (r: Result<Maybe<Self>, ReadError>)
+        ensures r is Ok ==> final(reader).remaining@.len() <= old(reader).remaining@.len();
+}
+
+pub mod c14_readers {
+use super::*;
+impl TermFull {
+//@extract id=term_read_xml file=junos-agent/src/policies/fetch.rs impl=/BorrowedReadXml<'i> for Term<'i>/ fn=borrowed_read_xml rules=R1,R2,R7,R8,R11,R15,R17 r7map=option constpats=XNM erase=NsReader,BytesStart,BytesEnd
+//@sig pub fn borrowed_read_xml(reader: &mut NsReader, start: &BytesStart) -> (res: Result<Self, ReadError>)
+//@contract
+        ensures res is Ok ==> final(reader).remaining@.len() <= old(reader).remaining@.len(),
+//@loop 1
+            invariant reader.remaining@.len() <= old(reader).remaining@.len(),
+            decreases reader.remaining@.len(),                                                  // OBL:C14.term.terminates
+//@loop 2
+                        invariant reader.remaining@.len() <= rem_at_then, rem_at_then <= old(reader).remaining@.len(),
+                        decreases reader.remaining@.len(),                                      // OBL:C14.term.then_loop_terminates
+//@before /let end = tag\.to_end\(\);/
+                    let ghost rem_at_then = reader.remaining@.len();
+//@end
+}
+impl RouteFilterFull {
+//@extract id=route_filter_read_xml file=junos-agent/src/policies/fetch.rs impl=/BorrowedReadXml<'i> for RouteFilter<'i>/ fn=borrowed_read_xml rules=R1,R2,R7,R8,R11,R15,R17,R21 r7map=option constpats=XNM erase=NsReader,BytesStart,BytesEnd
+//@+ sub=/ident.as_ref() != "prefix-length-range"=>!str_eq_cow(&ident.as_ref(), "prefix-length-range")/
+//@sig pub fn borrowed_read_xml(reader: &mut NsReader, start: &BytesStart) -> (res: Result<Self, ReadError>)
+//@contract
+        ensures res is Ok ==> final(reader).remaining@.len() <= old(reader).remaining@.len(),
+//@loop 1
+            invariant reader.remaining@.len() <= old(reader).remaining@.len(),
+            decreases reader.remaining@.len(),                                                  // OBL:C14.route_filter.terminates
+//@loop 2
+                    invariant reader.remaining@.len() <= rem_at_choice, rem_at_choice <= old(reader).remaining@.len(),
+                    decreases reader.remaining@.len(),                                          // OBL:C14.route_filter.choice_loop_terminates
+//@before /let ident = reader\.read_text/
+                    let ghost rem_at_choice = reader.remaining@.len();
+//@end
+}
+impl<T: MaybeRead> Policies<T> {
+//@extract id=policies_read_xml file=junos-agent/src/policies/fetch.rs impl=/impl<T> ReadXml for Policies<T>/ fn=read_xml rules=R1,R2,R7,R8,R11,R15,R17 r7map=option constpats=XNM vis=pub
+//@+ sub=/Maybe::read_xml(reader, &tag)?=>T::read_maybe(reader, &tag)?/
+//@contract
+        ensures res is Ok ==> final(reader).remaining@.len() <= old(reader).remaining@.len(),
+//@loop 1
+            invariant reader.remaining@.len() <= old(reader).remaining@.len(),
+            decreases reader.remaining@.len(),                                                  // OBL:C14.policies.terminates
+//@loop 2
+                        invariant reader.remaining@.len() <= rem_at_configuration, rem_at_configuration <= old(reader).remaining@.len(),
+                        decreases reader.remaining@.len(),                                      // OBL:C14.policies.configuration_loop_terminates
+//@loop 3
+                                    invariant reader.remaining@.len() <= rem_at_policy_options, rem_at_policy_options <= rem_at_configuration,
+                                        rem_at_configuration <= old(reader).remaining@.len(),
+                                    decreases reader.remaining@.len(),                          // OBL:C14.policies.policy_options_loop_terminates
+//@before /let end = tag\.to_end\(\);/ 1
+                    let ghost rem_at_configuration = reader.remaining@.len();
+//@before /let end = tag\.to_end\(\);/ 2
+                                let ghost rem_at_policy_options = reader.remaining@.len();
+//@end
+}
+} // mod c14_readers
 
 } // verus!
 fn main() {}
